@@ -160,7 +160,7 @@ def run_corpus(prop, jobs=8):
         if prop in props:
             tasks.append((path, prop, i % jobs, "mutant"))
             i += 1
-    for path in sorted(glob.glob(os.path.join(VERIF, "selftest", "benign", "*.diff"))):
+    for path in sorted(glob.glob(os.path.join(VERIF, "selftest", "benign", "*.diff")) + glob.glob(os.path.join(VERIF, "selftest", "benign_ext", "*.diff"))):
         tasks.append((path, prop, i % jobs, "benign"))
         i += 1
     chains = {}
@@ -174,6 +174,8 @@ def run_corpus(prop, jobs=8):
                "benign_run": 0, "benign_silent": 0, "benign_false_alarms": [], "samples": []}
     for r in sorted(results, key=lambda r: r["name"]):
         path = os.path.join(VERIF, "selftest", "mutants" if r["kind"] == "mutant" else "benign", r["name"] + ".diff")
+        if not os.path.exists(path):
+            path = os.path.join(VERIF, "selftest", "benign_ext", r["name"] + ".diff")
         props, expect = _parse_header(path)
         if r["status"] != "ok":
             summary["mutants_stale" if r["kind"] == "mutant" else "benign_run"] += 1 if r["kind"] == "mutant" else 0
